@@ -45,6 +45,11 @@ CLAIMED = {
    note='Trusted: Lean kernel + standard axioms; SipHash injectivity on the URIs in play (disjoint key sets per service name); transport exercised, not modelled.',
    technique='Lean 4 proof (invariant over registry histories, refinement to a last-event spec) + model/implementation correspondence check',
    ref='§8 C13'),
+ 'C15': dict(
+   text='Lean 4 theorems about the executable model of NodeCycler, select_n_nodes, DCAwareSelector::select_nodes and the selector actor: select_sound (for every well-formed layout, local position, level, cursor state = every history of earlier selections, and every outcome of the random choice: an Ok result has no duplicates, excludes the local node, lies in the installed layout, has at least the required size and exactly n for One/Two/Three; never panics; never changes the layout), after_update_only_current (after a membership update every later answer, cached or fresh, lies in the updated layout: departed nodes and data centres are never selected again). Completeness (NotEnoughNodes only when too few peers) is REFUTED for the unchanged code by extra_skip_counterexample (decide) and replayed on the implementation: known finding D11. Tied to the code through the real selector actor with the random DC choice recorded by a hook.',
+   note='Known finding D11 (select_n_nodes extra-node loop) is reported as KNOWN-FINDING; completeness is proved for no level and claimed for none (None/All/LocalQuorum/EachQuorum never fail by construction). Trusted: Lean kernel + standard axioms; layouts well-formed (distinct DC names, unique addresses, local node in its own DC); 2 s cache expiry exercised only by sleeping cases.',
+   technique='Lean 4 proof (loop invariant of select_n_nodes over all cursor states; actor invariant over request histories) + model/implementation correspondence check',
+   ref='§8 C15'),
 }
 NA_REASON = 'check not built yet (work in progress; see DESIGN.md section 8)'
 
